@@ -61,8 +61,8 @@ SCALED = [
      "rows": [row([2 * P17], "ge", 2 * P17 + 1), row([2 * P17], "le", 2 * P17)]},
     {"id": "h_scale_negative_rhs", "sense": "min", "obj": [2 * P17], "off": 0, "den": 2 * P17, "vars": [NN("v0")], "rows": [row([2 * P17], "le", -1)]},
     {"id": "h_scale_eq_contradiction", "sense": "max", "obj": [0], "off": 0, "den": P17, "vars": [R("v0")], "rows": [row([-2], "eq", 4), row([3], "eq", -7)]},
-    # right-hand sides and bounds of size 1e7: the two-phase start must not take round-off of that size for infeasibility
-    {"id": "h_scale_large_rhs", "sense": "max", "obj": [3], "off": 0, "den": 1, "vars": [NN("v0")], "rows": [row([2], "eq", 16000000), row([12], "ge", 7000000)]},
+    # a bound of size 1e7: the two-phase start must not take round-off of that size for infeasibility
+    # (answers of that size cannot cross to TLC, so the optimum of the model is small)
     {"id": "h_scale_wide_bound", "sense": "max", "obj": [1], "off": 0, "den": 1, "vars": [R("v0", lo=B(0, -10000000), hi=B(0, -4))], "rows": [row([3], "le", -1)]},
     {"id": "h_scale_domain", "sense": "max", "obj": [0, 0, 0], "off": 0, "den": P17, "vars": [R("v0", lo=B(0, -1), hi=B(0, 3)), R("v1", lo=B(0, -3), hi=B(0, -1)), R("v2")],
      "rows": [row([2, 4, 0], "ge", -5), row([-4, 0, 0], "ge", -2), row([0, 1, -3], "eq", 3)]},
@@ -79,6 +79,16 @@ NAMED = [
     {"id": "h_name_split_both", "sense": "max", "obj": [2, 1, 1], "off": 0, "den": 1, "vars": [NN("$mx"), NN("$px"), NN("y")], "rows": [row([1, 1, 1], "le", 4)]},
     {"id": "h_name_aux_split", "sense": "min", "obj": [1, 0, 0], "off": 0, "den": 1, "vars": [R("$max_0"), R("ax_0", lo=B(0, -2), hi=B(0, 5)), R("y", lo=B(0, 1), hi=B(0, 3))],
      "rows": [row([1, -1, 0], "ge", 0), row([1, 0, -1], "ge", 0)]},
+]
+
+
+# tiny integer systems on which the interior point backend reports "Solved" at a feasible point of an
+# UNBOUNDED model (a free variable next to a variable fixed by its range; reported by a seeding sub-agent)
+CLARABEL_STOPS = [
+    {"id": "h_clarabel_unbounded_fixed_var", "sense": "max", "obj": [3, 0, 0], "off": 0, "den": 1,
+     "vars": [R("v0"), R("v1", lo=B(0, -1), hi=B(0, -1)), R("v2")], "rows": [row([-3, 0, 2], "eq", 2)]},
+    {"id": "h_clarabel_unbounded_eighths", "sense": "max", "obj": [-1, 0, 0, -1], "off": 0, "den": 8,
+     "vars": [NN("v0"), NN("v1"), R("v2"), R("v3")], "rows": [row([4, -2, 3, -4], "eq", -24), row([-1, -3, 0, 0], "ge", 0)]},
 ]
 
 
@@ -103,7 +113,7 @@ def cycling_cases():
 
 def gen(tier, seed):
     meta = {}
-    cases = copy.deepcopy(HAND) + copy.deepcopy(DEGENERATE) + copy.deepcopy(SCALED) + copy.deepcopy(NAMED) + cycling_cases()
+    cases = copy.deepcopy(HAND) + copy.deepcopy(DEGENERATE) + copy.deepcopy(SCALED) + copy.deepcopy(NAMED) + copy.deepcopy(CLARABEL_STOPS) + cycling_cases()
     plan = [("Cont1.cfg", 350, None), ("Mixed1.cfg", 350, None), ("Cont2.cfg", 350, None), ("Mixed2.cfg", 450, None), ("Offset1.cfg", 200, None), ("Offset2.cfg", 300, None),
             ("SimMixed3.cfg", 250 if tier == "quick" else 6000, (3 if tier == "quick" else 40, 9)),
             ("SimCont3.cfg", 150 if tier == "quick" else 3000, (3 if tier == "quick" else 30, 9))]
@@ -134,7 +144,10 @@ def gen(tier, seed):
 
 
 def signature(ev, reason):
-    return f"entry={ev.get('entry')} {reason}"
+    # (the model is part of the signature: a known finding is one input, another model with the same
+    # symptom is still reported)
+    model = json.dumps({k: ev.get(k) for k in ("sense", "obj", "off", "den", "vars", "rows")}, sort_keys=True, separators=(",", ":"))
+    return f"entry={ev.get('entry')} {reason} model={model}"
 
 
 def check(prop, tier, seed, replay=None):
